@@ -139,6 +139,12 @@ impl LogicalLineFileFormatter for OptimisingLineFormatter {
             }
         }
 
+        // A multi-line string that is part of two logical lines (conditional directives) was
+        // indented for one of them, and the reflow of the other may have moved it.
+        for line in input {
+            string_formatter.format_multiline_strings(line, olf.formatted_tokens);
+        }
+
         // The reflow may have introduced new line breaks; as above, the spaces provided by
         // `TokenSpacing` must not remain at the start of those lines.
         for token_index in 0..olf.formatted_tokens.len() {
